@@ -12,6 +12,7 @@ C/S: crash oracle on the real compiler + VM (hook H1 bounds of every state acces
 import glob, json, os, re
 from vplib import *
 import lmmm
+import side_predicates
 from lmmm import *
 
 import importlib.util as _ilu0, sys as _sys0
@@ -230,6 +231,9 @@ def run(ck):
             k, ms = near_miss(frng, src)
             if ms and ms != src:
                 reqs.append({"src": ms, "path": f, "n": 48, "state": False, "sched": True}); meta.append(("filemut:" + k + ":" + os.path.basename(f), text_classes(ms), None))
+    for si in range(60 if quick else 600):
+        ssrc = lmmm.gen_side_source(ck.rng.fork(("side", si)))
+        reqs.append({"src": ssrc, "n": 6, "state": False}); meta.append(("side", text_classes(ssrc), None))
     for rq in reqs:
         rq["typecheck"] = True
     res = run_impl(iexe, reqs, timeout_per_batch=400)
@@ -264,6 +268,17 @@ def run(ck):
             if hit:
                 bump("crash_in_known_class_" + hit[0]); ck.known(findings[hit[0]], kind + " " + src.replace("\n", " ")[:120]); continue
             viol.append(("process died (%s) on %s" % (r['crash'], kind), src, rq)); continue
+        if kind == "side":
+            ov, ow = outcome(r.get("vm")), outcome(r.get("wasm"))
+            if ov is not None and ow is not None and ov[0] == 'ok' and ow[0] == 'ok':
+                sv = [s_.get('out') for s_ in r['vm']['samples']]; sw = [s_.get('out') for s_ in r['wasm']['samples']]
+                if sv != sw:
+                    viol.append(("VM and WASM differ on a program of the side families (non-finite match scrutinee / large literals / pattern-binder "
+                                 "scope / record width assignment): vm %s wasm %s" % (str(sv)[:120], str(sw)[:120]), src, rq))
+                else:
+                    bump("side_vm_equals_wasm")
+            elif (ov is not None and ov[0] == 'reject') != (ow is not None and ow[0] == 'reject'):
+                viol.append(("one backend rejects a side-family program that the other accepts", src, rq))
         for be in ("vm", "wasm"):
             o = outcome(r.get(be))
             if o is None:
@@ -276,6 +291,14 @@ def run(ck):
                 # return a let-bound boxed value as the result of the scope that releases it
                 if sc is None and re.search(r"BoxLoad: invalid heap index", o[1]) and _c12.let_result_pattern(src):
                     sc = "F64"
+                # classes identified by panic site AND a predicate on the source (lib/side_predicates.py)
+                if sc is None and side_predicates.closure_stored_in_array(src, o[1]):
+                    sc = "B1"
+                if sc is None and o[0] == "compile-panic" and "overflow" in o[1] and side_predicates.match_literals_far_apart(src):
+                    sc = "J5"
+                if sc is None and o[0] == "compile-panic" and re.search(r"value function \d+ not found|failed to find upvalue", o[1]) \
+                        and side_predicates.assignment_to_lambda_bound_name(src):
+                    sc = "T4b"
                 hit = [sc] if (sc and sc in findings) else [c for c in ("F3", "F40", "F41") if c in cls and c in findings]
                 if hit:
                     bump(be + "_panic_in_known_class_" + hit[0]); ck.known(findings[hit[0]], kind + " " + src.replace("\n", " ")[:120])
